@@ -78,7 +78,20 @@ pub fn gen_match(seed: u64, n: usize) -> Vec<Value> {
         .map(|i| {
             // words may contain whitespace that is not ASCII (match_words splits on ASCII whitespace only)
             let pool = ["the", "The", "a", "A", "cat", "CAT", "dog", "x", "", "é", "É", "über", "Über", "ÜBER", "ж", "Ж", "10\u{a0}km", "a\u{3000}b", "x\u{2028}",
-                        "\u{212A}m", "km", "\u{023A}", "\u{2C65}", "STRA\u{1E9E}E", "straße"];
+                        "\u{212A}m", "km", "\u{023A}", "\u{2C65}", "STRA\u{1E9E}E", "straße",
+                        // words that are the tail of another word ("together" / "to gether")
+                        "together", "gether", "to", "at", "og"];
+            // a few pairs have 63, 64 or 65 words (the width of a machine word) on one or both sides
+            if i % 60 == 9 {
+                let la = [63usize, 64, 64, 65][rng.random_range(0..4)];
+                let a: Vec<String> = (0..la).map(|k| format!("w{}", k % 50)).collect();
+                let mut b = if rng.random_bool(0.5) { a.clone() } else { (0..rng.random_range(1..=64usize)).map(|k| format!("w{}", (k * 7) % 50)).collect() };
+                for _ in 0..3 {
+                    if !b.is_empty() { let p = rng.random_range(0..b.len()); b[p] = "other".to_string(); }
+                }
+                let (a, b) = if rng.random_bool(0.5) { (a, b) } else { (b, a) };
+                return json!({"a": a.join(" "), "b": b.join(" "), "fold": rng.random_bool(0.5)});
+            }
             // one pair per run has more distinct words than 16 bits can number (the other text is tiny: the table stays small)
             if i == 7 {
                 let n = 65537 + rng.random_range(0..40usize);
